@@ -129,6 +129,11 @@ type GenOpts struct {
 	TimeoutFlush  bool // allow a held event at the end of a stream (flushed only by a time-out)
 	MultiHold     bool // allow two actions of the chain to hold / collapse (known-finding class)
 	BreakBeforeHolder bool // allow "break" at an action in front of the holding action
+	// RetryStorm (virtual time only): failing sends incl. "retry for ever / fail for ever" (ended by the
+	// backoff library's 15 min cap) are allowed; to keep the bubble from wedging on Batcher.mu the pool
+	// capacity stays below the number of batches (capacity <= workers-1, workers = 4): then Add never
+	// has to wait for a free batch while holding the mutex.
+	RetryStorm bool
 }
 
 // GenPlan draws a plan.
@@ -140,6 +145,12 @@ func GenPlan(t *rapid.T, g GenOpts) Plan {
 	}
 	if g.MinCapacity == 0 {
 		g.MinCapacity = 1
+	}
+	if g.RetryStorm {
+		g.MaxCapacity = 3
+		g.AllowFailures = true
+		g.AllowSync = false
+		g.AllowBatched = true
 	}
 	p.Capacity = rapid.IntRange(g.MinCapacity, g.MaxCapacity).Draw(t, "capacity")
 	p.SingleProc = rapid.IntRange(0, 3).Draw(t, "single") == 0
@@ -265,6 +276,17 @@ func GenPlan(t *rapid.T, g GenOpts) Plan {
 		p.HeartbeatStallUs = rapid.SampledFrom([]int{200, 1000, 5000}).Draw(t, "hbstall_us")
 	}
 	p.Output = genOutput(t, g, "out")
+	if g.RetryStorm {
+		p.Output.Workers = 4
+		if p.Output.Retries < 0 || rapid.IntRange(0, 2).Draw(t, "storm_forever") == 0 {
+			// unlimited retries against a send that fails for ever: only the library's elapsed-time cap ends it
+			p.Output.Retries = -1
+			if len(p.Output.Sends) == 0 {
+				p.Output.Sends = []SendScript{{WaitFor: -1}}
+			}
+			p.Output.Sends[0].Fails = -1
+		}
+	}
 	if g.Virtual && !p.Output.Sync {
 		// synctest: sync.Mutex waits are not durably blocking. The Batcher commits under a mutex and the
 		// std pool's back() may sleep there, which would wedge the bubble itself (a harness artefact);
@@ -275,6 +297,9 @@ func GenPlan(t *rapid.T, g GenOpts) Plan {
 		dq := genOutput(t, GenOpts{AllowBatched: true, Virtual: g.Virtual}, "dq")
 		dq.Retries = 0
 		dq.Sends = nil
+		if g.RetryStorm {
+			dq.Workers = 4
+		}
 		p.DeadQueue = &dq
 	}
 	return p
@@ -303,8 +328,8 @@ func genOutput(t *rapid.T, g GenOpts, label string) OutputPlan {
 			if rapid.IntRange(0, 3).Draw(t, label+"/forever") == 0 {
 				s.Fails = -1
 			}
-			if o.Retries < 0 && s.Fails < 0 {
-				s.Fails = 2 // retry-forever and fail-forever would never end
+			if o.Retries < 0 && s.Fails < 0 && !g.RetryStorm {
+				s.Fails = 2 // retry-forever and fail-forever ends only after 15 min (virtual-time retry-storm class)
 			}
 		}
 		if g.AllowWaitFor && rapid.IntRange(0, 2).Draw(t, label+"/haswait") > 0 {
